@@ -106,11 +106,14 @@ def target_names(t):
     return []
 
 
-def has_escape(stmts, in_loop_only=False):
-    """does the statement list contain return/raise (any depth) or break/continue (not inside a nested loop)?"""
+def has_escape(stmts, raising=()):
+    """does the statement list contain return/raise (any depth), a call to a raising function, or break/continue
+    (not inside a nested loop)?"""
     def walk(ss, loopdepth):
         for s in ss:
             if isinstance(s, (ast.Return, ast.Raise)):
+                return True
+            if raising and not isinstance(s, (ast.If, ast.For, ast.While)) and contains_raising([s], raising):
                 return True
             if isinstance(s, (ast.Break, ast.Continue)) and loopdepth == 0:
                 return True
@@ -126,7 +129,7 @@ def has_escape(stmts, in_loop_only=False):
 
 class FuncTr:
     def __init__(self, gen, fn, coqname, params=None, ptypes=None, returns=None, extra_params=None,
-                 raises=False, abstract=None):
+                 raises=False, abstract=None, ignore=None, fuel=None):
         self.gen = gen
         self.fn = fn
         self.coqname = coqname
@@ -134,6 +137,8 @@ class FuncTr:
         self.returns = returns
         self.raises = raises
         self.abstract = abstract or {}       # python call name -> coq parameter name (oracle)
+        self.ignore = set(ignore or [])      # names that only carry text (field descriptors): dropped
+        self.fuel = fuel                     # python expression (text) bounding the iterations of `while` loops
         args = [a.arg for a in fn.args.args if a.arg not in ("self", "cls")]
         self.params = [cname(a) for a in args]
         self.selfattrs = []                  # discovered self.x reads
@@ -311,6 +316,9 @@ class FuncTr:
                 if hi is None:
                     return f"(slice_from {v} {self.expr(lo)})"
                 return f"(sliceD {v} {self.expr(lo)} {self.expr(hi)})"
+            vt = self.infer(e.value)
+            if "*" in vt and not vt.startswith("list") and isinstance(e.slice, ast.Constant) and e.slice.value in (0, 1):
+                return f"({'fst' if e.slice.value == 0 else 'snd'} {v})"
             return f"(nthD {v} {self.expr(e.slice)})"
         if isinstance(e, ast.Call):
             return self.call(e)
@@ -340,8 +348,22 @@ class FuncTr:
 
     def call(self, e):
         f = e.func
-        args = e.args
-        if e.keywords:
+        args = list(e.args)
+        if isinstance(f, ast.Name) and f.id in self.gen.sigs:
+            names, defaults = self.gen.sigs[f.id]
+            full = list(args)
+            kw = {k.arg: k.value for k in e.keywords}
+            for nm in names[len(args):]:
+                if nm in kw:
+                    full.append(kw.pop(nm))
+                elif nm in defaults:
+                    full.append(defaults[nm])
+                else:
+                    raise Unsupported(f"call to {f.id}: missing argument {nm}")
+            if kw:
+                raise Unsupported(f"call to {f.id}: unknown keywords {sorted(kw)}")
+            args = full
+        elif e.keywords:
             raise Unsupported("keyword arguments in call")
         if isinstance(f, ast.Name):
             n = f.id
@@ -458,6 +480,11 @@ class FuncTr:
                 ch = attr_chain(v.func) if isinstance(v.func, ast.Attribute) else None
                 if ch and ch[0] == "warnings":
                     return self.block(rest, final, defined)
+                if isinstance(v.func, ast.Name) and v.func.id == "print":
+                    return self.block(rest, final, defined)
+                if isinstance(v.func, ast.Attribute) and v.func.attr in ("append", "extend") and \
+                        isinstance(v.func.value, ast.Name) and v.func.value.id in self.ignore:
+                    return self.block(rest, final, defined)
                 if isinstance(v.func, ast.Attribute) and v.func.attr in ("append", "extend") and len(v.args) == 1:
                     tgt = self.target_name(v.func.value)
                     cur = self.expr(v.func.value)
@@ -483,6 +510,28 @@ class FuncTr:
                     raise Unsupported("slice assignment")
                 rhs = f"(set_nthD {self.expr(t.value)} {self.expr(t.slice)} {self.expr(s.value)})"
                 return f"let {base} := {rhs} in{ind}{self.block(rest, final, defined)}"
+            if isinstance(t, ast.Name) and t.id in self.ignore:
+                return self.block(rest, final, defined)
+            if isinstance(t, (ast.Tuple, ast.List)) and any(isinstance(x, ast.Name) and x.id in self.ignore for x in t.elts):
+                keep = [x for x in t.elts if not (isinstance(x, ast.Name) and x.id in self.ignore)]
+                if len(keep) != 1:
+                    raise Unsupported("tuple assignment with ignored names")
+                s2 = ast.Assign(targets=[keep[0]], value=s.value)
+                return self.block([s2] + rest, final, defined)
+            if isinstance(s.value, ast.Call) and isinstance(s.value.func, ast.Name) and s.value.func.id in self.gen.raising:
+                if not self.raises:
+                    raise Unsupported("call to a raising function from a non-raising one")
+                name = self.target_name(t)
+                rhs = self.expr(s.value)
+                self.note_defined(name, s.value)
+                defined.add(name)
+                if self.loopstack:
+                    st = self.loopstack[-1]
+                    if not st.get("err"):
+                        raise Unsupported("raising call inside a loop without error state")
+                    bad = self.tuple_of((["true"] if st["brk"] else []) + ["(Some e_)"] + st["state"])
+                    return f"match {rhs} with Err e_ => {bad} | Ok {name} =>{ind}{self.block(rest, final, defined)}{ind}end"
+                return f"match {rhs} with Err e_ => Err e_ | Ok {name} =>{ind}{self.block(rest, final, defined)}{ind}end"
             if isinstance(t, (ast.Tuple, ast.List)):
                 names = [self.target_name(x) for x in t.elts]
                 rhs = self.expr(s.value)
@@ -508,32 +557,39 @@ class FuncTr:
                 raise Unsupported("return inside loop")
             if s.value is None:
                 v = self.final_return()
+            elif isinstance(s.value, ast.Tuple) and any(isinstance(x, ast.Name) and x.id in self.ignore for x in s.value.elts):
+                keep = [x for x in s.value.elts if not (isinstance(x, ast.Name) and x.id in self.ignore)]
+                v = self.expr(keep[0]) if len(keep) == 1 else self.expr(ast.Tuple(elts=keep, ctx=ast.Load()))
             else:
                 v = self.expr(s.value)
             return f"(Ok {v})" if self.raises else v
         if isinstance(s, ast.Raise):
             if not self.raises:
                 raise Unsupported("raise in a function not declared raising")
-            if self.loopstack:
-                raise Unsupported("raise inside loop")
             exc = s.exc
             nm = exc.func.id if isinstance(exc, ast.Call) and isinstance(exc.func, ast.Name) else \
                 (exc.id if isinstance(exc, ast.Name) else None)
             if nm not in ("ValueError", "IndexError", "ZeroDivisionError", "TypeError"):
                 raise Unsupported(f"raise {nm}")
+            if self.loopstack:
+                st = self.loopstack[-1]
+                if not st.get("err"):
+                    raise Unsupported("raise inside a loop without error state")
+                return self.tuple_of((["true"] if st["brk"] else []) + [f"(Some {nm})"] + st["state"])
             return f"(Err {nm})"
         if isinstance(s, ast.Break):
             if not self.loopstack:
                 raise Unsupported("break outside loop")
-            return self.tuple_of(["true"] + self.loopstack[-1]["state"])
+            st = self.loopstack[-1]
+            return self.tuple_of(["true"] + (["err_"] if st.get("err") else []) + st["state"])
         if isinstance(s, ast.Continue):
             if not self.loopstack:
                 raise Unsupported("continue outside loop")
             st = self.loopstack[-1]
-            return self.tuple_of((["false"] if st["brk"] else []) + st["state"])
+            return self.tuple_of((["false"] if st["brk"] else []) + (["err_"] if st.get("err") else []) + st["state"])
         if isinstance(s, ast.If):
             c = self.expr(s.test)
-            if has_escape([s]):
+            if has_escape([s], self.gen.raising if self.raises else ()):
                 d1, d2 = set(defined), set(defined)
                 saved = dict(self.vtypes)
                 a = self.block(s.body + rest, final, d1)
@@ -541,12 +597,12 @@ class FuncTr:
                 b = self.block(s.orelse + rest, final, d2)
                 defined |= (d1 & d2)
                 return f"(if {c} then{ind}{a}{ind}else{ind}{b})"
-            names = assigned_names(s.body + s.orelse)
+            names = [n for n in assigned_names(s.body + s.orelse) if n not in self.ignore]
             d1, d2 = set(defined), set(defined)
             # variables possibly unbound before the join get a default first
             pre = ""
-            a_names = set(assigned_names(s.body))
-            b_names = set(assigned_names(s.orelse))
+            a_names = set(assigned_names(s.body)) - self.ignore
+            b_names = set(assigned_names(s.orelse)) - self.ignore
             for nm in names:
                 if nm not in defined and not nm.startswith('self_') and not (nm in a_names and nm in b_names):
                     pre += f"let {nm} := dflt in{ind}"
@@ -558,34 +614,102 @@ class FuncTr:
             defined |= set(names)
             return f"{pre}let {self.pat_of(names)} :={ind}(if {c} then{ind}{a}{ind}else{ind}{b}) in{ind}" \
                    f"{self.block(rest, final, defined)}"
-        if isinstance(s, ast.For):
+        if isinstance(s, (ast.For, ast.While)):
             if s.orelse:
-                raise Unsupported("for-else")
-            it = self.iter_expr(s.iter)
-            self.bind_target_types(s.target, s.iter)
-            pat = self.pattern(s.target)
-            tnames = set(target_names(s.target))
-            state = [n for n in assigned_names(s.body) if n not in tnames]
-            pre = ""
+                raise Unsupported("loop-else")
+            is_while = isinstance(s, ast.While)
+            if is_while:
+                if not (self.raises and self.fuel):
+                    raise Unsupported("while loop needs a raising function with a fuel bound")
+                fuel_ast = ast.parse(self.fuel, mode="eval").body
+                it = f"(repeatQ tt {self.expr(fuel_ast)})"
+                pat = "_"
+                tnames = set()
+            else:
+                it = self.iter_expr(s.iter)
+                self.bind_target_types(s.target, s.iter)
+                pat = self.pattern(s.target)
+                tnames = set(target_names(s.target))
+            state = [n for n in assigned_names(s.body) if n not in tnames and n not in self.ignore]
+            # loop-local temporaries (definitely assigned at the top of the body before any read, never read outside the loop)
+            state = [n for n in state if n in defined or n.startswith('self_') or not self.loop_local(n, s)]
+            need_default = []
             for nm in state:
                 if nm not in defined and not nm.startswith('self_'):
-                    pre += f"let {nm} := dflt in{ind}"
+                    need_default.append(nm)
                     self.notes.append(f"{self.coqname}: `{nm}` assigned only inside a loop; initialised with a default")
                     defined.add(nm)
-            brk = has_break(s.body)
-            self.loopstack.append({"state": state, "brk": brk})
-            fall = self.tuple_of((["false"] if brk else []) + state)
+            brk = has_break(s.body) or is_while
+            err = self.raises and contains_raising(s.body, self.gen.raising)
+            ctrl = (["brk_"] if brk else []) + (["err_"] if err else [])
+            self.loopstack.append({"state": state, "brk": brk, "err": err})
+            fall = self.tuple_of((["false"] if brk else []) + (["err_"] if err else []) + state)
             body = self.block(s.body, fall, set(defined) | tnames)
+            if is_while:
+                stop = self.tuple_of(["true"] + (["err_"] if err else []) + state)
+                body = f"(if {self.expr(s.test)} then{ind}{body}{ind}else {stop})"
             self.loopstack.pop()
-            stpat = self.pat_of((["brk_"] if brk else []) + state)
-            init = self.tuple_of((["false"] if brk else []) + state)
-            guard = f"if (brk_ : bool) then st_ else{ind}" if brk else ""
-            if not state and not brk:
+            stpat = self.pat_of(ctrl + state)
+            init = self.tuple_of((["false"] if brk else []) + (["(@None exn)"] if err else []) + state)
+            guard = ""
+            if brk and err:
+                guard = f"if (brk_ : bool) || (match err_ with Some _ => true | None => false end) then st_ else{ind}"
+            elif brk:
+                guard = f"if (brk_ : bool) then st_ else{ind}"
+            elif err:
+                guard = f"if (match err_ with Some _ => true | None => false end) then st_ else{ind}"
+            if not state and not brk and not err:
                 raise Unsupported("loop without effect")
-            loop = (f"fold_left (fun st_ {pat if not pat.startswith(chr(39)) else pat} =>{ind}"
+            loop = (f"fold_left (fun st_ {pat} =>{ind}"
                     f"let {stpat} := st_ in{ind}{guard}{body}){ind}{it} {init}")
-            return f"{pre}let {stpat} :={ind}{loop} in{ind}{self.block(rest, final, defined)}"
+            after = self.block(rest, final, defined)
+            if is_while:
+                after = f"(if (brk_ : bool) then{ind}{after}{ind}else Err OutOfFuel)"
+            if err:
+                if self.loopstack:
+                    # propagate to the enclosing loop
+                    outer = self.loopstack[-1]
+                    if not outer.get("err"):
+                        raise Unsupported("nested raising loop inside a loop without error state")
+                    prop = self.tuple_of((["true"] if outer["brk"] else []) + ["(Some e_)"] + outer["state"])
+                    after = f"match err_ with Some e_ => {prop} | None =>{ind}{after}{ind}end"
+                else:
+                    after = f"match err_ with Some e_ => Err e_ | None =>{ind}{after}{ind}end"
+            pre = ""
+            for nm in need_default:
+                ty = self.vtypes.get(nm, "")
+                ann = f"(dflt : {ty})" if (ty == "Q" or ty == "bool" or ty.startswith("list ") or "*" in ty) else "dflt"
+                pre += f"let {nm} := {ann} in{ind}"
+            return f"{pre}let {stpat} :={ind}{loop} in{ind}{after}"
         raise Unsupported("statement " + type(s).__name__)
+
+    def loop_local(self, name, loop):
+        """is `name` a temporary of this loop's body?"""
+        def reads(node):
+            return any(isinstance(n, ast.Name) and cname(n.id) == name and isinstance(n.ctx, ast.Load) for n in ast.walk(node))
+        # read anywhere in the function outside this loop -> not local
+        for n in ast.walk(self.fn):
+            if n is loop:
+                continue
+        outside = False
+        def walk_out(node):
+            nonlocal outside
+            for ch in ast.iter_child_nodes(node):
+                if ch is loop:
+                    continue
+                if isinstance(ch, ast.Name) and cname(ch.id) == name and isinstance(ch.ctx, ast.Load):
+                    outside = True
+                walk_out(ch)
+        walk_out(self.fn)
+        if outside:
+            return False
+        for st in loop.body:
+            if isinstance(st, ast.Assign) and len(st.targets) == 1 and isinstance(st.targets[0], ast.Name) \
+                    and cname(st.targets[0].id) == name and not reads(st.value):
+                return True
+            if reads(st) or name in assigned_names([st]):
+                return False
+        return False
 
     def final_return(self):
         if self.returns is None:
@@ -642,6 +766,16 @@ class FuncTr:
     declared_extra_strict = None
 
 
+def contains_raising(stmts, raising):
+    for st in stmts:
+        for n in ast.walk(st):
+            if isinstance(n, ast.Raise):
+                return True
+            if isinstance(n, ast.Call) and isinstance(n.func, ast.Name) and n.func.id in raising:
+                return True
+    return False
+
+
 def has_break(stmts):
     def walk(ss):
         for s in ss:
@@ -660,6 +794,8 @@ class Gen:
         self.const_types = {}
         self.enums = {}
         self.funcs = {}          # python name -> coq name
+        self.sigs = {}           # python name -> (arg names, {name: default ast})
+        self.raising = set()     # python names of translated functions that return `result`
         self.func_rettypes = {}
         self.out = []
         self.notes = []
@@ -726,12 +862,19 @@ class Gen:
         tr.declared_extra_strict = extra_strict
         text = tr.translate()
         self.out.append(f"(* {fname}:{node.lineno} {qual} *)\n{text}")
-        self.funcs[pyname or qual.split(".")[-1]] = cn
-        self.func_rettypes[pyname or qual.split(".")[-1]] = rettype
+        key = pyname or qual.split(".")[-1]
+        self.funcs[key] = cn
+        self.func_rettypes[key] = rettype
+        a = node.args
+        names = [x.arg for x in a.args if x.arg not in ("self", "cls")]
+        defaults = dict(zip(names[len(names) - len(a.defaults):], a.defaults))
+        self.sigs[key] = (names, defaults)
+        if kw.get("raises"):
+            self.raising.add(key)
         self.notes += tr.notes
         return tr
 
-    def assign_expr(self, fname, qual, target, coqname, params, ptypes=None, index=None):
+    def assign_expr(self, fname, qual, target, coqname, params, ptypes=None, index=None, attrs=None):
         """the right-hand side of the unique assignment `target = ...` inside function `qual`"""
         node = self.find(fname, qual)
         hits = []
@@ -756,7 +899,7 @@ class Gen:
                                                                  kwonlyargs=[], kw_defaults=[], defaults=[]),
                                body=[ast.Return(value=hits[0].value)], decorator_list=[])
         tr = FuncTr(self, fake, coqname, ptypes=ptypes)
-        tr.declared_extra_strict = []
+        tr.declared_extra_strict = attrs or []
         text = tr.translate()
         self.out.append(f"(* {fname}:{hits[0].lineno} {qual}: {target} = ... *)\n{text}")
         self.funcs[coqname] = coqname
@@ -810,6 +953,25 @@ def build_spec(g):
     g.func("ground_loads.py", "monthdays")
     g.func("ground_loads.py", "first_month_hour", ptypes={"years": "list Q"})
     g.func("ground_loads.py", "last_month_hour", ptypes={"years": "list Q"})
+    # ---- candidate field generators (coordinates.py, domains.py): whole functions ----
+    PL = "list (Q * Q)"
+    g.func("coordinates.py", "transpose_coordinates", rettype=PL, ptypes={"coordinates": PL})
+    g.func("coordinates.py", "rectangle", rettype=PL, ptypes={"origin": "Q * Q"})
+    g.func("coordinates.py", "open_rectangle", rettype=PL)
+    g.func("coordinates.py", "c_shape", rettype=PL)
+    g.func("coordinates.py", "lop_u", rettype=PL)
+    g.func("coordinates.py", "l_shape", rettype=PL)
+    g.func("coordinates.py", "zoned_rectangle", rettype=PL, raises=True)
+    DL = "list (list (Q * Q))"
+    ign = ["field_descriptors", "f_d", "f_ds", "f_d_reordered"]
+    g.func("domains.py", "square_and_near_square", rettype=DL, raises=True, ignore=ign)
+    g.func("domains.py", "rectangular", rettype=DL, ignore=ign, ptypes={"disp": "bool"})
+    g.func("domains.py", "bi_rectangular", rettype=DL, ignore=ign, ptypes={"disp": "bool", "transpose": "bool"})
+    g.func("domains.py", "bi_rectangle_nested", rettype="list (list (list (Q * Q)))", ignore=ign, ptypes={"disp": "bool"})
+    g.func("domains.py", "zoned_rectangle_domain", rettype=DL, ignore=ign, raises=True, fuel="n_x + n_y", ptypes={"transpose": "bool"})
+    g.func("domains.py", "bi_rectangle_zoned_nested", rettype="list (list (list (Q * Q)))", ignore=ign, raises=True)
+    g.assign_expr("design.py", "DesignNearSquare.__init__", "n", "near_square_n", [],
+                  attrs=["self.geometric_constraints.length", "self.geometric_constraints.b"])
     # ---- point in polygon (shape.py) ----
     g.func("shape.py", "point_polygon_check.between", coqname="between", rettype="bool")
     g.assign_expr("shape.py", "point_polygon_check", "c", "ppc_cross", ["v1x", "px", "v2y", "py", "v2x", "v1y"])
